@@ -57,10 +57,18 @@ def compare(op, im, mo):
         # implementation prints the distinct answers of its draws.
         if im.startswith("ok ") and mo.startswith("ok "):
             a, b = set(im[3:].split(",")), set(mo[3:].split(","))
-            if any(x.endswith(":*") for x in a):
-                # answer of the Select / SelectWithExclusion wrappers: no admitting domain returned
-                b = set(x.rsplit(":", 1)[0] + ":*" for x in b)
-            return len(a) > 0 and a <= b
+            star = lambda x: x.rsplit(":", 1)[0] + ":*"
+            # `*` in place of the admitting domain: the Select / SelectWithExclusion wrappers do not
+            # return it (implementation side); under `fixed` and for the last resort it is outside the
+            # statement (model side)
+            a2 = set(star(x) if any(star(x) == y for y in b if y.endswith(":*")) else x for x in a)
+            if any(x.endswith(":*") for x in a2):
+                b = b | set(star(y) for y in b)
+            return len(a2) > 0 and a2 <= b
+        # choose / dial: an error wrapped so that errors.Is no longer sees ErrNoAliveDialer (%w -> %v) is an
+        # API detail outside the statement
+        if op.startswith("choose ") and im == "err=other" and mo == "err=noalive":
+            return "note"
         return False
     if op.startswith("dial "):
         # routeDial: strictness, number of dials and the callbacks/sets exactly; the last answer as a member
@@ -73,6 +81,8 @@ def compare(op, im, mo):
             return True
         if a.startswith("ok ") and b.startswith("ok "):
             return set(a[3:].split(",")) <= set(b[3:].split(","))
+        if a == "err=other" and b == "err=noalive":
+            return "note"
         return False
     if op == "capture":
         # per type: the recorded fallback is one of the nodes a non-strict selection may return
@@ -128,7 +138,7 @@ def run(ctx):
         return 2
     n_eval = 0
     distinct = set()
-    for label in ("c15", "c15dial", "c15oob", "c15wit"):
+    for label in ("c15", "c15g2", "c15dial", "c15oob", "c15wit"):
         ops, impl, model = (os.path.join(ctx.out, label + "." + e) for e in ("ops", "impl", "model"))
         if not os.path.exists(ops):
             ctx.say("HARNESS-FAILED no stream", label)
@@ -201,6 +211,8 @@ def run(ctx):
         ("selections answered 'no alive'", c.get("sel.noalive", 0), 100),
         ("last-resort answers", c.get("sel.last_resort", 0), 30),
         ("cached choice switched to another node", c.get("best.switched", 0), 200),
+        ("scenarios with a second group sharing dialers", c.get("scenario.second_group_sharing_dialers", 0), 30),
+        ("probes on the periodic-cycle path (check with a cycleResult)", c.get("ev.probe_periodic_cycle", 0), 150),
         ("routeDial ops", dial_c.get("op.dial", 0), 200),
         ("routeDial retries after network-unreachable", dial_c.get("dial.retry_after_unreachable", 0), 50),
         ("re-routed dials (domain++ or control-plane routing)", sum(v for k, v in dial_c.items() if k.startswith("dial.mode_c.out_u.dom_") and not k.endswith("dom_n")) + sum(v for k, v in dial_c.items() if ".out_x." in k), 80),
